@@ -95,7 +95,7 @@ pub fn run(id: &str, tier: &str) -> i32 {
     // 1. open known findings: replay witnesses
     let mut ctx = Ctx { thread: 0, node: None };
     for f in known::open_findings(id) {
-        let path = format!("{}/{}", engine::VERIF_ROOT, f.witness);
+        let path = format!("{}/{}", engine::verif_root(), f.witness);
         let Some(doc) = load_json(&path) else {
             println!("note: witness {} of known finding {} unreadable", f.witness, f.id);
             continue;
@@ -116,7 +116,7 @@ pub fn run(id: &str, tier: &str) -> i32 {
         }
     }
     // 2. saved regression inputs (shrunk failures of the past, fixed findings' witnesses, seeded-mutant killers)
-    let dir = format!("{}/replays/regress/{}", engine::VERIF_ROOT, id);
+    let dir = format!("{}/replays/regress/{}", engine::verif_root(), id);
     let mut saved = vec![];
     if let Ok(rd) = std::fs::read_dir(&dir) {
         let mut paths: Vec<_> = rd.filter_map(|e| e.ok()).map(|e| e.path()).collect();
@@ -164,7 +164,7 @@ pub fn run(id: &str, tier: &str) -> i32 {
         };
         if let Some((target, props)) = target {
             let secs = std::env::var("VERIF_FUZZ_SECS").unwrap_or_else(|_| "300".into());
-            let out = std::process::Command::new(format!("{}/tools/fuzz.sh", engine::VERIF_ROOT)).args(["run", target, &secs, props]).output();
+            let out = std::process::Command::new(format!("{}/tools/fuzz.sh", engine::verif_root())).args(["run", target, &secs, props]).output();
             match out {
                 Ok(o) => {
                     let text = String::from_utf8_lossy(&o.stdout).to_string();
@@ -204,7 +204,7 @@ pub fn run(id: &str, tier: &str) -> i32 {
 
 /// (file, config) cases from /verif/corpus/real
 fn corpus_cases(limit: usize) -> Vec<Value> {
-    let dir = format!("{}/corpus/real", engine::VERIF_ROOT);
+    let dir = format!("{}/corpus/real", engine::verif_root());
     let mut names: Vec<String> = std::fs::read_dir(&dir)
         .map(|rd| rd.filter_map(|e| e.ok()).map(|e| e.file_name().to_string_lossy().to_string()).filter(|n| n.ends_with("js")).collect())
         .unwrap_or_default();
